@@ -355,7 +355,9 @@ func (r *c18Runner) explainLayout(blamed, pe parser.Expr, mode string, bt int64,
 				alone = false
 			}
 		}
-		if alone && n >= 2 {
+		// (at bt only one of the series may have samples in its window: the cursor is still shared with the series that
+		// the query's whole time range selects)
+		if alone && n >= 1 && len(seen) >= 2 {
 			return "later_series_of_reused_cursor_miss_out_of_order_rows"
 		}
 	}
